@@ -152,7 +152,7 @@ pub fn run(tier: Tier, shard: Shard, stats: &mut Stats) {
                                         }
                                     }
                                     prev = Some((pos, len, filled));
-                                    stats.state(hash_of(&(n.min(70), c, k, filled.min(70), partial, len.min(1 << 25))), filled > 0 || partial);
+                                    stats.state_outcome(hash_of(&(n.min(70), c, k, filled.min(70), partial, len.min(1 << 25))), filled > 0 || partial);
                                 }
                                 Err((class, detail)) => stats.violation(Violation { class, config: "bar".into(), history: hist, detail }),
                             }
@@ -202,11 +202,11 @@ pub fn run(tier: Tier, shard: Shard, stats: &mut Stats) {
                                     }
                                     let inner: String = line.chars().filter(|&ch| ch != 'x').collect();
                                     match judge(&inner, &set, (w - rest) / c * c, c, pos, 7) {
-                                        Ok((filled, partial)) => stats.state(hash_of(&("wide", tw, rest, c, k, filled, partial)), filled > 0),
+                                        Ok((filled, partial)) => stats.state_outcome(hash_of(&("wide", tw, rest, c, k, filled, partial)), filled > 0),
                                         Err((class, detail)) => stats.violation(Violation { class: format!("wide_bar {class}"), config: "wide_bar".into(), history: hist, detail }),
                                     }
                                 } else {
-                                    stats.state(hash_of(&("wide-overfull", tw, rest)), false);
+                                    stats.state_outcome(hash_of(&("wide-overfull", tw, rest)), false);
                                 }
                             }
                         }
@@ -250,7 +250,7 @@ pub fn run(tier: Tier, shard: Shard, stats: &mut Stats) {
                                     continue;
                                 }
                             }
-                            stats.state(hash_of(&("wide+field", tw, c, before, pos)), true);
+                            stats.state_outcome(hash_of(&("wide+field", tw, c, before, pos)), true);
                         }
                     }
                 }
@@ -294,7 +294,7 @@ pub fn run(tier: Tier, shard: Shard, stats: &mut Stats) {
                                         continue;
                                     }
                                 }
-                                stats.state(hash_of(&("resize", w1, w2, step, rest, c)), true);
+                                stats.state_outcome(hash_of(&("resize", w1, w2, step, rest, c)), true);
                             }
                         }
                     }
